@@ -314,6 +314,20 @@ func genConfig(r *c.Rng, big bool) Config {
 					break
 				}
 			}
+		case 2, 3:
+			// A uses "B.<key>" AND declares a processor of its own under <key>, with
+			// other parameters: which of the two instances runs shows in its effect
+			if !clash(r, &cfg, a, b, false) {
+				clash(r, &cfg, b, a, false)
+			}
+			if r.Chance(1, 3) {
+				clash(r, &cfg, b, a, false) // and the other way round
+			}
+		case 4:
+			if r.Chance(1, 3) {
+				// the flow's own <key> is a processor of another TYPE than B.<key>
+				clash(r, &cfg, a, b, true)
+			}
 		}
 	default: // A (and sometimes B) go through the shared flow X
 		x := g.flow("X", c.Pick(r, []string{"c04.test/x", "c04.test/x", mainURL}), 3, 2, true)
@@ -341,8 +355,171 @@ func genConfig(r *c.Rng, big bool) Config {
 			cfg.Flows = append(cfg.Flows, f)
 		}
 		cfg.Flows = append(cfg.Flows, x)
+		if r.Chance(1, 4) {
+			// A names a processor of the shared flow ("X.<key>") and declares - without
+			// using it: X's own nodes come into A's graph under their plain keys - a
+			// processor under the same key
+			clashUnused(r, &cfg, &cfg.Flows[0], &cfg.Flows[len(cfg.Flows)-1])
+		}
 	}
 	return cfg
+}
+
+// sameTypeProcs: indices of the processors of type typ that f declares and no
+// other flow of the configuration names ("f.<key>"): they may be dropped or renamed.
+func sameTypeProcs(cfg *Config, f *FlowCfg, typ string) []int {
+	var out []int
+	for i, p := range f.Procs {
+		if p.Type != typ {
+			continue
+		}
+		named := false
+		for j := range cfg.Flows {
+			named = named || usesRef(&cfg.Flows[j], f.Name+"."+p.Key)
+		}
+		if !named {
+			out = append(out, i)
+		}
+	}
+	return out
+}
+
+func usesRef(f *FlowCfg, ref string) bool {
+	for _, cs := range [][]Conn{f.Req, f.Res} {
+		for _, cn := range cs {
+			if (cn.From.Kind == "proc" && cn.From.Name == ref) || (cn.To.Kind == "proc" && cn.To.Name == ref) {
+				return true
+			}
+		}
+	}
+	return false
+}
+
+func declares(f *FlowCfg, key string) bool {
+	for _, p := range f.Procs {
+		if p.Key == key {
+			return true
+		}
+	}
+	return false
+}
+
+// ownTwin: a processor flow a declares under key kb, of type typ, whose
+// parameters differ from those of every other processor of the configuration.
+func ownTwin(a *FlowCfg, kb, typ string) Proc {
+	p := Proc{Key: kb, Type: typ}
+	switch typ {
+	case tFilter:
+		p.Hdr = "x-" + strings.ToLower(a.Name) + "-own-" + kb
+	case tGen:
+		p.Status = 503
+	}
+	return p
+}
+
+// clash: flow a uses processor <kb> of flow b ("b.<kb>") in place of one of its
+// own processors and ALSO declares a processor under the key <kb>, with other
+// parameters (another steering header / another early response): where a second
+// processor of that type exists in a it takes the key <kb> (and stays where it is
+// in a's graph), else the twin is declared without being connected.  otherType:
+// a's own <kb> is of ANOTHER type than b.<kb>.  false: no suitable processors.
+func clash(r *c.Rng, cfg *Config, a, b *FlowCfg, otherType bool) bool {
+	var cands []int
+	for i, p := range b.Procs {
+		if (p.Type == tFilter || p.Type == tGen) && !declares(a, p.Key) && !usesRef(a, b.Name+"."+p.Key) {
+			cands = append(cands, i)
+		}
+	}
+	for len(cands) > 0 {
+		ci := r.Intn(len(cands))
+		pb := b.Procs[cands[ci]]
+		cands = append(cands[:ci], cands[ci+1:]...)
+		same := sameTypeProcs(cfg, a, pb.Type)
+		if len(same) == 0 {
+			continue
+		}
+		// the processor of a that b.<kb> replaces
+		si := r.Intn(len(same))
+		old := a.Procs[same[si]].Key
+		renameProc(a, old, b.Name+"."+pb.Key, false)
+		a.Procs = append(a.Procs[:same[si]], a.Procs[same[si]+1:]...)
+		if otherType {
+			other := tGen
+			if pb.Type == tGen {
+				other = tFilter
+			}
+			if os := sameTypeProcs(cfg, a, other); len(os) > 0 && r.Chance(1, 2) {
+				renameProc(a, a.Procs[c.Pick(r, os)].Key, pb.Key, true)
+			} else {
+				a.Procs = append(a.Procs, ownTwin(a, pb.Key, other))
+			}
+			return true
+		}
+		rest := sameTypeProcs(cfg, a, pb.Type)
+		if len(rest) > 0 && r.Chance(3, 4) {
+			i := c.Pick(r, rest)
+			renameProc(a, a.Procs[i].Key, pb.Key, true)
+			if pb.Type == tGen {
+				a.Procs[i].Status = 503
+			}
+		} else {
+			a.Procs = append(a.Procs, ownTwin(a, pb.Key, pb.Type))
+		}
+		return true
+	}
+	return false
+}
+
+// clashUnused: as clash, but a's own <kb> is never connected.
+func clashUnused(r *c.Rng, cfg *Config, a, b *FlowCfg) bool {
+	var cands []int
+	for i, p := range b.Procs {
+		if (p.Type == tFilter || p.Type == tGen) && !declares(a, p.Key) {
+			cands = append(cands, i)
+		}
+	}
+	for len(cands) > 0 {
+		ci := r.Intn(len(cands))
+		pb := b.Procs[cands[ci]]
+		cands = append(cands[:ci], cands[ci+1:]...)
+		same := sameTypeProcs(cfg, a, pb.Type)
+		if len(same) == 0 {
+			continue
+		}
+		si := c.Pick(r, same)
+		renameProc(a, a.Procs[si].Key, b.Name+"."+pb.Key, false)
+		a.Procs = append(a.Procs[:si], a.Procs[si+1:]...)
+		a.Procs = append(a.Procs, ownTwin(a, pb.Key, pb.Type))
+		return true
+	}
+	return false
+}
+
+// clashPairs: the steering headers of two Filters that share a key, one of them
+// used by a flow through "G.<key>" while the flow declares <key> itself: the
+// transactions that carry exactly one of the two tell the instances apart.
+func clashPairs(cfg *Config) [][2]string {
+	var out [][2]string
+	for i := range cfg.Flows {
+		f := &cfg.Flows[i]
+		seen := map[string]bool{}
+		for _, cs := range [][]Conn{f.Req, f.Res} {
+			for _, cn := range cs {
+				for _, e := range []End{cn.From, cn.To} {
+					by, name := splitRef(e.Name)
+					if e.Kind != "proc" || by == "" || seen[e.Name] {
+						continue
+					}
+					seen[e.Name] = true
+					own, named := cfg.proc(Inst{f.Name, name}), cfg.proc(Inst{by, name})
+					if own != nil && named != nil && own.Type == tFilter && named.Type == tFilter {
+						out = append(out, [2]string{own.Hdr, named.Hdr})
+					}
+				}
+			}
+		}
+	}
+	return out
 }
 
 // filtersOf lists the header names steering the Filters of a configuration.
